@@ -452,6 +452,55 @@ Section GenericProofs.
     intros [H|[]]. subst. exists (x, v). auto.
   Qed.
 
+  (* membership-level form of "lookups read exactly es": independent of the order of singles and ranges *)
+  Definition hits_sound (es ss : list entry) (rr : list grange) : Prop :=
+    (forall e, In e ss -> In e es) /\
+    (forall f l vals c i v, In (f, l, vals) rr -> range_index f l c = Some i ->
+                            range_value next vals i = Some v -> In (c, v) es).
+
+  Definition hits_complete (es ss : list entry) (rr : list grange) : Prop :=
+    forall c v, In (c, v) es ->
+      (exists w, In (c, w) ss) \/
+      (exists f l vals i w, In (f, l, vals) rr /\ range_index f l c = Some i /\ range_value next vals i = Some w).
+
+  Lemma hits_lookup (es ss : list entry) (rr : list grange) c :
+    hits_sound es ss rr -> hits_complete es ss rr -> NoDup (map fst es) ->
+    own_lookup next ss rr c = assoc es c.
+  Proof.
+    intros [HS1 HS2] HC Hnd.
+    assert (Sound : forall v, own_lookup next ss rr c = Some v -> In (c, v) es).
+    { intros v. unfold own_lookup. rewrite find_single_assoc. destruct (assoc ss c) as [w|] eqn:E.
+      - intros H; inversion H; subst. apply HS1. apply assoc_in. assumption.
+      - intros H. apply find_range_sound in H as (f & l & vals & i & Hin & Hi & Hv). eapply HS2; eauto. }
+    destruct (assoc es c) as [v|] eqn:E.
+    - apply assoc_in in E.
+      assert (Complete : exists w, own_lookup next ss rr c = Some w).
+      { unfold own_lookup. rewrite find_single_assoc. destruct (assoc ss c) as [w|] eqn:E1; [eauto|].
+        destruct (HC c v E) as [(w & Hw)|(f & l & vals & i & w & H1 & H2 & H3)].
+        - exfalso. apply assoc_none in E1. apply E1. apply (in_map fst) in Hw. exact Hw.
+        - destruct (find_range next rr c) as [w'|] eqn:F; [eauto|].
+          exfalso. pose proof (find_range_none _ _ F f l vals i H1 H2) as G. rewrite G in H3. discriminate. }
+      destruct Complete as [w Hw]. pose proof (Sound w Hw) as Hin. rewrite Hw. f_equal. eapply nodup_fun; eauto.
+    - destruct (own_lookup next ss rr c) as [w|] eqn:F; [|reflexivity].
+      pose proof (Sound w eq_refl) as G. apply assoc_none in E. exfalso. apply E. apply (in_map fst) in G. exact G.
+  Qed.
+
+  Lemma hits_sound_perm (es ss ss' : list entry) (rr rr' : list grange) :
+    Permutation ss ss' -> Permutation rr rr' -> hits_sound es ss rr -> hits_sound es ss' rr'.
+  Proof.
+    intros P1 P2 [H1 H2]. split.
+    - intros e He. apply H1. eapply Permutation_in; [apply Permutation_sym; exact P1|exact He].
+    - intros f l vals c i v Hin. eapply H2. eapply Permutation_in; [apply Permutation_sym; exact P2|exact Hin].
+  Qed.
+
+  Lemma hits_complete_perm (es ss ss' : list entry) (rr rr' : list grange) :
+    Permutation ss ss' -> Permutation rr rr' -> hits_complete es ss rr -> hits_complete es ss' rr'.
+  Proof.
+    intros P1 P2 H c v Hin. destruct (H c v Hin) as [(w & Hw)|(f & l & vals & i & w & G1 & G2 & G3)].
+    - left. exists w. eapply Permutation_in; eauto.
+    - right. exists f, l, vals, i, w. split; [eapply Permutation_in; eauto|auto].
+  Qed.
+
   Section Runs.
     Variable rs : list run.
     Hypothesis Hok : Forall run_ok rs.
@@ -505,6 +554,28 @@ Section GenericProofs.
       - destruct (own_lookup next ss rr c) as [w|] eqn:F; [|reflexivity].
         apply lookup_sound in F. apply assoc_none in E. exfalso. apply E.
         apply (in_map fst) in F. exact F.
+    Qed.
+    Lemma runs_hits_sound : hits_sound es ss rr.
+    Proof.
+      split; [apply singles_incl|].
+      intros f l vals c i v Hin Hi Hv. unfold rr, ranges_of in Hin. apply in_flat_map in Hin as (r & Hr & Hin).
+      unfold es. apply in_flat_map. exists r. split; [assumption|].
+      rewrite Forall_forall in Hok. eapply range_hit_sound; eauto.
+    Qed.
+
+    Lemma runs_hits_complete : hits_complete es ss rr.
+    Proof.
+      intros c v Hin. unfold es in Hin. apply in_flat_map in Hin as (r & Hr & Hin).
+      rewrite Forall_forall in Hok. pose proof (Hok r Hr) as Hrok.
+      destruct r as [k items]. destruct items as [|a [|b items]].
+      - destruct Hrok as (H & _). cbn in H. congruence.
+      - left. exists v. unfold run_entries in Hin. cbn [fst snd map In] in Hin. destruct Hin as [Hin|[]].
+        unfold ss, singles_of. apply in_flat_map. exists (k, [a]). split; [assumption|].
+        unfold run_single. cbn [fst snd]. destruct a. left. exact Hin.
+      - right. destruct (range_hit_complete (k, a :: b :: items) c v Hrok) as (f & l & vals & i & w & H1 & H2 & H3);
+          [cbn [snd length]; lia|assumption|].
+        exists f, l, vals, i, w. split; [|auto].
+        unfold rr, ranges_of. apply in_flat_map. exists (k, a :: b :: items). auto.
     Qed.
   End Runs.
 
@@ -615,5 +686,24 @@ Section GenericProofs.
     eapply Permutation_trans; [apply runs_all|].
     - apply build_runs_ok; [assumption|apply sort_sorted].
     - rewrite Hent. assumption.
+  Qed.
+
+  Theorem compress_hits (es : list entry) :
+    wf_entries es ->
+    hits_sound es (fst (compress link mkvals es)) (snd (compress link mkvals es)) /\
+    hits_complete es (fst (compress link mkvals es)) (snd (compress link mkvals es)).
+  Proof.
+    intros Hwf. unfold compress. cbn [fst snd].
+    set (sorted := sort_entries es).
+    assert (Hp : Permutation sorted es) by apply sort_perm.
+    assert (Hwf' : wf_entries sorted) by (eapply wf_entries_perm; [apply Permutation_sym|]; eauto).
+    assert (Hent : flat_map run_entries (build_runs link sorted) = sorted).
+    { apply build_runs_entries. intros e He. unfold wf_entries in Hwf'. rewrite Forall_forall in Hwf'. apply Hwf'. assumption. }
+    assert (Hok : Forall run_ok (build_runs link sorted)) by (apply build_runs_ok; [assumption|apply sort_sorted]).
+    pose proof (runs_hits_sound _ Hok) as [S1 S2]. pose proof (runs_hits_complete _ Hok) as C.
+    rewrite Hent in *. split; [split|].
+    - intros e He. eapply Permutation_in; [exact Hp|]. apply S1. exact He.
+    - intros f l vals c i v H1 H2 H3. eapply Permutation_in; [exact Hp|]. eapply S2; eauto.
+    - intros c v Hin. apply (C c v). eapply Permutation_in; [apply Permutation_sym; exact Hp|exact Hin].
   Qed.
 End GenericProofs.
